@@ -26,7 +26,7 @@ impl Check for C08 {
         "C08"
     }
     fn rule(&self) -> String {
-        "case = one generated (formatted) library served by the real LSP loop; every internal link occurrence (block reference or inline, any note, incl. links of a note to itself) is used as rename site x new names {free, taken, sub/free, free.md}; the returned WorkspaceEdit is applied to a copy by the harness's own model and the copy re-scanned: new note present with the old note's blocks, old name gone, every link that resolved to the old name now resolves to the new one with text preserved or equal to the title, every other link and every unrelated note untouched, taken name refused without edits; distinct = (site kind, linking dir, target dir, name class) combinations".into()
+        "case = one generated (formatted) library served by the real LSP loop (half of the sessions after an edit of every note, a third starting from an earlier version whose front matter differs); every internal link occurrence (block reference or inline, any note, incl. links of a note to itself) is used as rename site x new names {free, taken, sub/free, free.md}; the returned WorkspaceEdit is applied to a copy by the harness's own model and the copy re-scanned: new note present with the old note's blocks, old name gone, every link that resolved to the old name now resolves to the new one with text preserved or equal to the title, every other link and every unrelated note untouched, taken name refused without edits; distinct = (site kind, linking dir, target dir, name class) combinations".into()
     }
     fn assumptions(&self) -> Vec<String> {
         vec![
